@@ -42,7 +42,7 @@ def evaluate_marginals_contract(L):
 
     def instances(tier):
         out = []
-        for N, n, d in [(1, 2, 1), (2, 2, 2)] + ([(3, 2, 1), (2, 3, 1)] if tier == "thorough" else []):
+        for N, n, d in [(1, 2, 1), (2, 2, 2), (3, 1, 2)] + ([(3, 2, 1), (2, 3, 1)] if tier == "thorough" else []):
             out.append(Instance(f"N={N},n={n},d={d}", lambda rng, N=N, n=n, d=d: ((make_sequence(L, rng, N, n, d, reverse=True),), {}), positive=G._scalings()))
         return out
 
@@ -101,7 +101,7 @@ def finalize_contract(L):
 
     def instances(tier):
         out = []
-        for N, n, d in [(1, 2, 1), (2, 2, 2)] + ([(3, 2, 1)] if tier == "thorough" else []):
+        for N, n, d in [(1, 2, 1), (2, 2, 2), (3, 1, 2)] + ([(3, 2, 1)] if tier == "thorough" else []):
             def make(rng, N=N, n=n, d=d):
                 p0, ps, p1 = _stack_states(L, rng, N, n, d)
                 return (p0, ps, p1, jnp.asarray(rng.uniform(0.5, 2.0, size=(d,) if L is BlockL else ()))), {}
